@@ -177,6 +177,27 @@ def run_index(case, ctx):
         ctx.ev()
         if _check_result(ctx, f"vector-mask-{form}", v[key], want, v, f"{vals} mask {m}"):
             return
+    if n:
+        # the same mask vector used again after being edited in place
+        mv = S.Vector(list(m))
+        first = v[mv]
+        j = case["idx"] % n
+        m2 = list(m)
+        m2[j] = not m2[j]
+        try:
+            mv[j] = m2[j]
+        except Exception:  # noqa: BLE001
+            mv = None
+        if mv is not None:
+            ctx.ev()
+            want2 = [x for x, f in zip(vals, m2) if f]
+            if _check_result(ctx, "vector-mask-vector/reused-after-edit", v[mv], want2, v, f"{vals} mask {m} edited at {j}"):
+                return
+            t2 = R.build_table([("a", vals), ("b", list(range(n)))])
+            t2[S.Vector(list(m))]
+            got_b = list(t2[mv].cols()[1])
+            if got_b != [i2 for i2, f in zip(range(n), m2) if f]:
+                return ctx.fail("table-mask/reused-after-edit", f"mask {m} edited at {j}: rows {got_b}")
     if len(set(m)) == 2:
         ctx.nontrivial()
     i = case["idx"]
@@ -260,8 +281,16 @@ def run_compare(case, ctx):
             if got != want or any(type(x) is not bool for x in got):
                 return ctx.fail(f"compare-{form}/mismatch/{name}", f"{a} {name} {ys}: got {got} want {want}")
             sc = res.schema()
-            if len(got) and (sc is None or sc.kind is not bool or sc.nullable):
-                return ctx.fail(f"compare-{form}/result-dtype", f"{a} {name} {ys}: schema {sc}")
+            if sc is None or sc.kind is not bool or sc.nullable:
+                return ctx.fail(f"compare-{form}/result-dtype/{'empty' if not got else 'nonempty'}", f"{a} {name} {ys}: schema {sc}")
+            if form in ("scalar", "vector") and name in ("eq", "lt"):
+                # the comparison result is usable as a mask on its own operand
+                try:
+                    sel = list(va[res])
+                except Exception as e:  # noqa: BLE001
+                    return ctx.fail(f"compare-{form}/result-not-usable-as-mask/{'empty' if not got else 'nonempty'}", f"{a}[{a} {name} ...]: {type(e).__name__}: {e}")
+                if [freeze(x) for x in sel] != [freeze(x) for x, f in zip(a, want) if f]:
+                    return ctx.fail(f"compare-{form}/mask-composition-wrong", f"{a}[{a} {name} {ys}] = {sel}")
         # length mismatch must raise
         for form in ("vector", "list"):
             wl = list(b) + [case["scalar"]] * case["wrong_len"]
